@@ -218,6 +218,33 @@ def s4auth():
         return 'nothing', None, True, r
     return 'failure', (None if len(r) == 8 and not extra else f'reply {r.hex()} + {extra.hex()}'), how in ('eof', 'reset'), r
 special('socks4-auth-required-unknown-id', s4auth, True)
+def http_bad(extra_headers, target=None):
+    def f():
+        s = socket.create_connection(('127.0.0.1', hp), timeout=5)
+        s.sendall(b'CONNECT ' + (target or f'127.0.0.1:{echo4.port}').encode() + b' HTTP/1.1\r\n' + extra_headers + b'\r\n')
+        raw, how = recv_until_eof(s, 3)
+        s.close()
+        if not raw:
+            return 'nothing', None, how in ('eof', 'reset'), raw
+        head, _, body = raw.partition(b'\r\n\r\n')
+        try:
+            code = int(head.split(b' ')[1])
+        except Exception:
+            return 'failure', f'unparsable reply {raw[:40]!r}', how in ('eof', 'reset'), raw
+        if code == 200:
+            return 'established', None, False, raw
+        cl = [l for l in head.split(b'\r\n') if l.lower().startswith(b'content-length:')]
+        bad = None
+        if cl and int(cl[0].split(b':')[1]) != len(body):
+            bad = f'Content-Length {int(cl[0].split(b":")[1])} but {len(body)} body bytes'
+        elif not cl and body:
+            bad = f'{len(body)} body bytes without Content-Length'
+        return 'failure', bad, how in ('eof', 'reset'), raw
+    return f
+special('http-udp-channel-not-offered', http_bad(b'Proxy-Protocol: udp\r\nProxy-Channel: datagram\r\n'), True)
+special('http-udp-channel-quic-datagrams-on-tcp-listener', http_bad(b'Proxy-Protocol: udp\r\nProxy-Channel: quic-datagrams\r\n'), True)
+special('http-protocol-unknown', http_bad(b'Proxy-Protocol: sctp\r\n'), True)
+special('http-target-without-port', http_bad(b'', target='nohost'), True)
 
 # ---- a session that was told 'established' and ends later (idle timeout, relay error) must not get a second reply:
 #      UDP associations keep their control connection open while they relay
@@ -266,6 +293,6 @@ for o in (echo4, echo6, uph, ups):
 if evals < 50 or len(distinct) < 6:
     machinery(f'vacuous: evals={evals} distinct={len(distinct)}')
 cov = {'evaluations': evals, 'distinct_nontrivial': len(distinct), 'transitions': evals, 'traces_validated_against_impl': evals,
-       'rule': 'real binary: client protocol {http, socks5, socks4/4a} x 33 routes (direct v4/v6/refused; an http upstream that refuses with 1..40000 bytes of explanation in its headers; http, socks5, socks4 upstreams behaving ok / saying no / closing mid-handshake / sending garbage; denied; no rule; upstream port closed) + BIND, unknown command, UDP not allowed, 3 authentication failures; UDP sessions (socks5 associate idle / after a datagram to a closed port, http inline) ending by idle timeout after their success reply must get nothing more; reply parsed strictly, echo round trip decides whether the tunnel really works',
+       'rule': 'real binary: client protocol {http, socks5, socks4/4a} x 33 routes (direct v4/v6/refused; an http upstream that refuses with 1..40000 bytes of explanation in its headers; http, socks5, socks4 upstreams behaving ok / saying no / closing mid-handshake / sending garbage; denied; no rule; upstream port closed) + BIND, unknown command, UDP not allowed, 3 authentication failures, 4 HTTP requests the listener cannot serve (UDP channel it does not offer, unknown protocol, target without port); UDP sessions (socks5 associate idle / after a datagram to a closed port, http inline) ending by idle timeout after their success reply must get nothing more; reply parsed strictly, echo round trip decides whether the tunnel really works',
        'clients': CLIENTS, 'routes': len(ROUTES), 'schedule_control': 'kernel', 'samples': samples}
 sys.exit(chk.finish('model_checking', cov, ['E4 part: fake upstream proxies in Python decide their behaviour from the requested host name']))
